@@ -82,3 +82,105 @@ def parse_frames(buf, compressed=False):
         pid, q = read_varint(body, 0)
         out.append((pid, body[q:]))
     return out, buf[pos:]
+
+
+# ----------------------------------------------------------------------------------------------
+# AES-128 (encryption direction only, FIPS-197) and CFB8, written from the standards; independent
+# of `cryptography` and of the Lean model.
+
+def _xtime(a):
+    a <<= 1
+    return (a ^ 0x11b) & 0xff if a & 0x100 else a
+
+
+def _gmul(a, b):
+    r = 0
+    while b:
+        if b & 1:
+            r ^= a
+        a = _xtime(a)
+        b >>= 1
+    return r
+
+
+def _make_sbox():
+    # multiplicative inverse in GF(2^8) followed by the affine map
+    inv = [0] * 256
+    for a in range(1, 256):
+        for b in range(1, 256):
+            if _gmul(a, b) == 1:
+                inv[a] = b
+                break
+    box = []
+    for a in range(256):
+        x = inv[a]
+        y = x
+        for i in range(1, 5):
+            y ^= ((x << i) | (x >> (8 - i))) & 0xff
+        box.append(y ^ 0x63)
+    return box
+
+
+_SBOX = _make_sbox()
+
+
+def aes128_encrypt_block(key, block):
+    assert len(key) == 16 and len(block) == 16
+    w = [list(key[4 * i:4 * i + 4]) for i in range(4)]
+    rcon = 1
+    for i in range(4, 44):
+        t = list(w[i - 1])
+        if i % 4 == 0:
+            t = t[1:] + t[:1]
+            t = [_SBOX[x] for x in t]
+            t[0] ^= rcon
+            rcon = _xtime(rcon)
+        w.append([a ^ b for a, b in zip(w[i - 4], t)])
+    rk = [sum((w[4 * r + c] for c in range(4)), []) for r in range(11)]
+    s = [b ^ k for b, k in zip(block, rk[0])]
+    for r in range(1, 11):
+        s = [_SBOX[x] for x in s]
+        s = [s[(i + 4 * (i % 4)) % 16] for i in range(16)]          # ShiftRows (column-major state)
+        if r != 10:
+            t = []
+            for c in range(4):
+                a = s[4 * c:4 * c + 4]
+                t += [_gmul(a[0], 2) ^ _gmul(a[1], 3) ^ a[2] ^ a[3],
+                      a[0] ^ _gmul(a[1], 2) ^ _gmul(a[2], 3) ^ a[3],
+                      a[0] ^ a[1] ^ _gmul(a[2], 2) ^ _gmul(a[3], 3),
+                      _gmul(a[0], 3) ^ a[1] ^ a[2] ^ _gmul(a[3], 2)]
+            s = t
+        s = [b ^ k for b, k in zip(s, rk[r])]
+    return bytes(s)
+
+
+class CFB8:
+    """one direction of an AES-128-CFB8 stream (encrypt=True/False), key = iv = secret by default"""
+
+    def __init__(self, key, iv=None, encrypt=True):
+        self.key = bytes(key)
+        self.reg = bytes(iv if iv is not None else key)
+        self.encrypt = encrypt
+
+    def update(self, data):
+        out = bytearray()
+        for b in data:
+            k = aes128_encrypt_block(self.key, self.reg)[0]
+            o = b ^ k
+            c = o if self.encrypt else b
+            self.reg = self.reg[1:] + bytes([c])
+            out.append(o)
+        return bytes(out)
+
+
+def rsa_pkcs1v15_decrypt(key, ct):
+    """key: dict(n, e, d). Textbook RSA + PKCS#1 v1.5 type-2 unpadding."""
+    k = (key['n'].bit_length() + 7) // 8
+    assert len(ct) == k
+    m = pow(int.from_bytes(ct, 'big'), key['d'], key['n']).to_bytes(k, 'big')
+    if m[0] != 0 or m[1] != 2:
+        raise ValueError('bad padding')
+    i = m.index(0, 2)
+    if i < 10:
+        raise ValueError('padding too short')
+    return m[i + 1:]
